@@ -726,6 +726,48 @@ func g16HashCoverage(c *vh.Check, g *g16Case) {
 }
 
 // RunC01 runs the Groth16 verifier check on this curve.
+// g16SetupStructure: the Pedersen keys of the BSB22 commitments.  Every proving key's sigma
+// multiples must be consistent with ITS verifying key (e(sigma*B, G) e(B, -sigma*G) = 1) and with no
+// other commitment's key: with a shared trapdoor a proof of knowledge for one commitment
+// transfers to another one, and a prover can move committed wire values between commitments
+// after the challenge is known.
+func g16SetupStructure(c *vh.Check, g *g16Case) {
+	vks, pks := g.vk.CommitmentKeys, g.pk.CommitmentKeys
+	name := fmt.Sprintf("g16:%s:%s:setup", CurveID, g.Name)
+	if len(vks) != g.NbCommit || len(pks) != g.NbCommit {
+		c.Violation(name+":number-of-commitment-keys", map[string]any{"vk": len(vks), "pk": len(pks), "commitments": g.NbCommit})
+		return
+	}
+	for i := range pks {
+		if len(pks[i].Basis) != len(pks[i].BasisExpSigma) {
+			c.Violation(fmt.Sprintf("%s:commitment-key[%d]:basis-lengths", name, i), nil)
+			continue
+		}
+		if vks[i].G.IsInfinity() || vks[i].GSigmaNeg.IsInfinity() {
+			c.Violation(fmt.Sprintf("%s:commitment-key[%d]:degenerate", name, i), nil)
+			continue
+		}
+		for j := range pks[i].Basis {
+			for k := range vks {
+				ok, err := curve.PairingCheck([]curve.G1Affine{pks[i].BasisExpSigma[j], pks[i].Basis[j]}, []curve.G2Affine{vks[k].G, vks[k].GSigmaNeg})
+				c.Evals.Add(1)
+				switch {
+				case err != nil:
+					c.Violation(fmt.Sprintf("%s:commitment-key[%d]:pairing-error", name, i), map[string]any{"error": err.Error()})
+				case k == i && !ok:
+					c.Violation(fmt.Sprintf("%s:commitment-key[%d]:sigma-multiples-inconsistent-with-own-verifying-key", name, i), map[string]any{"basis_element": j})
+				case k != i && ok && !pks[i].Basis[j].IsInfinity():
+					c.Violation(fmt.Sprintf("%s:commitment-keys[%d,%d]:share-a-trapdoor", name, i, k), map[string]any{"basis_element": j,
+						"note": "e(sigma_i*B, G_k) e(B, -sigma_k*G_k) = 1: a proof of knowledge made with key i verifies under key k; committed values can be moved between the two commitments after their challenges are known"})
+				}
+			}
+		}
+	}
+	if g.NbCommit > 0 {
+		c.Outcome("g16:setup:commitment-keys-consistent-and-independent")
+	}
+}
+
 func RunC01(c *vh.Check, cases []bk.Case) {
 	c.Par(len(cases), func(i int) {
 		g, err := buildG16(cases[i])
@@ -744,6 +786,7 @@ func RunC01(c *vh.Check, cases []bk.Case) {
 		c.Count("edits:"+CurveID.String(), g.Name, int64(len(edits)))
 		badAssignments(c, g)
 		g16HashCoverage(c, g)
+		g16SetupStructure(c, g)
 		if i == 0 {
 			c.Sample(map[string]any{"curve": CurveID.String(), "circuit": g.Name, "edits": len(edits), "first_edits": []string{edits[1].name, edits[3].name, edits[len(edits)-2].name}})
 		}
